@@ -292,7 +292,8 @@ def gen_variable_shell(rng, i, ents, enums, *, types=TYPES, units=None, input_on
     elif unit in ("month", "day") and chance(rng, 0.1):
         var["set_input"] = "dispatch"
     if unit != "eternity" and chance(rng, 0.12):
-        var["end"] = pick(rng, ["2018-06-30", "2018-12-31", "2019-03-31"])
+        # (the last day a variable exists may be the first day of a period)
+        var["end"] = pick(rng, ["2018-06-30", "2018-12-31", "2019-03-31", "2018-01-01", "2018-02-01", "2019-01-01"])
     return var
 
 
@@ -335,7 +336,7 @@ def gen_world(
         starts = ["0001-01-01"]
         if var["unit"] != "eternity":
             if chance(rng, 0.25):
-                starts = [pick(rng, ["2017-06-01", "2018-01-01", "2018-02-01"])]
+                starts = [pick(rng, [d for d in ("2017-06-01", "2018-01-01", "2018-02-01") if var.get("end") is None or d <= var["end"]])]
             for _ in range(n_formulas - 1):
                 s = pick(rng, ["2018-01-01", "2018-07-01", "2019-01-01", "2018-03-15"])
                 if s > starts[-1] and (var.get("end") is None or s <= var["end"]):
